@@ -1,9 +1,13 @@
-(** C07 — what "usable after a crash" means for one per-user store, and the
-    classes of crash states in which raven's current code violates it.
+(** C07 — what "usable after a crash" means for one per-user store.
 
     [crash_at d h k] (Model/Micro.v) is the durable state when the process dies
     after the first [k] atomic micro-steps of workload [h].  Recovery is the
-    next GetUserDB ([COpen], implied by every login and delivery). *)
+    next GetUserDB ([COpen], at the head of every session and of the first
+    delivery to the user in the restarted process).
+
+    There is no finding class left: the two classes of the first round
+    (store creation torn between its schema statements / before INSERT INBOX,
+    DESIGN F19) are repaired by fixes/store-init-idempotent.patch. *)
 From Coq Require Import String Ascii List Bool ZArith Arith.
 From Raven Require Import Base.GoStr Model.Store Model.Ops Model.Micro.
 Import ListNotations.
@@ -11,26 +15,15 @@ Local Open Scope Z_scope.
 
 Definition has_inbox (d : dstore) : bool := is_some (find_name (d_st d) INBOX).
 
-(** the store can be used: either the file does not exist (the next first
-    contact creates it completely) or the tables every path needs exist and
+(** the store can be used as it is: the tables every path needs exist and
     there is an INBOX *)
-Definition usable (d : dstore) : bool := negb (d_file d) || (ready d && has_inbox d).
+Definition usable (d : dstore) : bool := d_file d && ready d && has_inbox d.
 
-Inductive cclass :=
-| CTornSchema   (* the file exists, essential tables are missing: initUserDB is never run again *)
-| CNoInbox.     (* tables exist, the default-mailbox INSERTs did not get as far as INBOX *)
+Definition res_ok (r : result) : bool := match r with ROk => true | _ => false end.
 
-Definition classify_state (c : dstore) : option cclass :=
-  if negb (d_file c) then None
-  else if negb (ready c) then Some CTornSchema
-  else if negb (has_inbox c) then Some CNoInbox
-  else None.
-
-(** the class of crash point [k] of workload [h] run on a new data directory *)
-Definition classify (h : list cop) (k : nat) : option cclass := classify_state (crash_at absent h k).
-
-Definition class_code (c : option cclass) : Z :=
-  match c with None => 0 | Some CTornSchema => 1 | Some CNoInbox => 2 end.
+(** the next GetUserDB succeeds and leaves a usable store *)
+Definition reopen_ok_b (c : dstore) (t : Z) : bool :=
+  let '(d1, r1) := big c (COpen t t t t t) in res_ok r1 && usable d1.
 
 (** every message listed in a mailbox is complete *)
 Definition links_complete_b (d : dstore) : bool :=
@@ -40,9 +33,9 @@ Definition links_complete_b (d : dstore) : bool :=
     delivered message is listed and complete *)
 Definition recovers_b (c : dstore) (t : Z) (sh : shape) : bool :=
   let '(d1, r1) := big c (COpen t t t t t) in
-  let '(d2, r2) := big d1 (CDeliver INBOX t sh t t t t t) in
+  let '(d2, r2) := big d1 (CDeliver INBOX t sh) in
   match r1, r2 with
-  | ROk, ROk => has_inbox d1 && links_complete_b d2
+  | ROk, ROk => usable d1 && links_complete_b d2
                 && Nat.eqb (length (links (d_st d2))) (S (length (links (d_st d1))))
   | _, _ => false
   end.
